@@ -585,7 +585,13 @@ Proof.
   destruct (perpendicular_total 1024 l ltac:(lia) Hb) as [-> Hperp].
   destruct (bparams_new_total 3072 _ ltac:(lia) Hperp) as [-> Hbpp].
   destruct (line_delta_total 1024 l ltac:(lia) Hb) as [-> Hd].
-  rewrite (length_squared_total 2048) by (assumption || lia).
+  pose proof (length_squared_bound 2048 _ ltac:(lia) Hd) as Hls.
+  assert (Hq : i64 (px (line_delta l) * px (line_delta l)) = true /\ i64 (py (line_delta l) * py (line_delta l)) = true /\
+               i64 (length_squared (line_delta l)) = true).
+  { destruct Hd as [? ?].
+    pose proof (mul_bound (px (line_delta l)) (px (line_delta l)) 2048 2048).
+    pose proof (mul_bound (py (line_delta l)) (py (line_delta l)) 2048 2048). repeat split; rng. }
+  destruct Hq as [-> [-> ->]].
   pose proof (mul_bound_nn (t * 2) (t * 2) 256 256).
   destruct (next_all_total 6144 1024 (bparams_new (perpendicular l)) (BS (l_start l0) 0)) as [-> _];
     try lia; try assumption.
